@@ -224,6 +224,9 @@ func (d *Decoder) DecodeWithOption(v interface{}, optFuncs ...DecodeOptionFunc) 
 		return err
 	}
 	if err := d.s.PrepareForDecode(); err != nil {
+		if rerr := d.s.ReadError(); rerr != nil {
+			return rerr
+		}
 		return err
 	}
 	s := d.s
@@ -231,7 +234,15 @@ func (d *Decoder) DecodeWithOption(v interface{}, optFuncs ...DecodeOptionFunc) 
 		optFunc(s.Option)
 	}
 	if err := dec.DecodeStream(s, 0, header.ptr); err != nil {
+		if rerr := s.ReadError(); rerr != nil {
+			return rerr
+		}
 		return err
+	}
+	if rerr := s.ReadError(); rerr != nil {
+		// the input ended because the reader failed, not because of EOF:
+		// what was decoded may be a truncated value
+		return rerr
 	}
 	s.Reset()
 	return nil
